@@ -51,3 +51,28 @@ Proof.
   intros O key_ok Hk text forest p H Hn Hok.
   exact (text_to_text_cli O key_ok Hk text forest p H (parse_program_c_view_ok text forest p H) Hn Hok).
 Qed.
+
+(* the hypotheses of the _total theorems are satisfiable on a text with comments at every position class the item view
+   reads (statement, list leading / end-of-line / after the last item, record, do-block comment and do_statement) *)
+Local Open Scope string_scope.
+Definition view_witness : string :=
+  "// top" +++ nl +++ "x = [ // lead" +++ nl +++ "  1, // eol" +++ nl +++ "  ...y // e2" +++ nl +++ "] // stmt" +++ nl +++
+  "r = {a: 1, // ra" +++ nl +++ "  b}" +++ nl +++ "f = do {" +++ nl +++ "  // dc" +++ nl +++ "  z = 1 // ds" +++ nl +++
+  "  return z" +++ nl +++ "}" +++ nl +++ "g = k(1, 2)[0]".
+Lemma total_hypotheses_satisfiable :
+  exists forest p,
+    parse_program_c view_witness = PCOk forest p
+    /\ forest_no_empty_container view_witness forest = true
+    /\ forest_comments view_witness forest =
+       ["// top"; "// lead"; "// eol"; "// e2"; "// stmt"; "// ra"; "// dc"; "// ds"]
+    /\ program_comments p = forest_comments view_witness forest.
+Proof.
+  destruct (parse_program_c view_witness) as [forest p| | | |] eqn:H;
+    try (vm_compute in H; discriminate H).
+  exists forest, p. split; [reflexivity|].
+  assert (Hf : forest = match parse_program_c view_witness with PCOk f _ => f | _ => [] end)
+    by (rewrite H; reflexivity).
+  assert (Hp : p = match parse_program_c view_witness with PCOk _ q => q | _ => [] end)
+    by (rewrite H; reflexivity).
+  subst forest p. vm_compute. repeat split; reflexivity.
+Qed.
